@@ -21,6 +21,8 @@ type plan struct {
 	depth int
 	thin  bool
 	cmpN  int // size of the sub-universe compared with cmp.Equal(protocmp.Transform())
+	// touchOnly restricts the alphabet to the stored-but-empty composite slots plus a few value slots
+	touchOnly bool
 }
 
 func plans(c *core.Ctx) []plan {
@@ -30,6 +32,8 @@ func plans(c *core.Ctx) []plan {
 		{name: "goproto.proto.test3.TestAllTypes", k: 1, depth: 2, cmpN: 120},
 		{name: "opaque.goproto.proto.testeditions.TestAllTypes", k: 1, depth: 2, cmpN: 60},
 		{name: "goproto.proto.test.TestAllExtensions", k: 1, depth: 2, cmpN: 60},
+		{name: "goproto.proto.test.TestAllExtensions", k: 2, depth: 1, thin: true, touchOnly: true},
+		{name: "goproto.proto.test.TestAllTypes", k: 2, depth: 1, thin: true, touchOnly: true},
 		{name: "opaque.lazy_tree.Node", k: 2, depth: 3, thin: true, cmpN: 60},
 		{name: "pb2.Nests", k: 2, depth: 3, thin: true, cmpN: 60},
 		{name: "pb2.Maps", k: 2, depth: 2, cmpN: 60},
@@ -67,7 +71,24 @@ func run(c *core.Ctx) {
 			break
 		}
 		md := univ.MT(p.name).Descriptor()
-		alpha := univ.Alphabet(md, p.depth, univ.Opt{Thin: p.thin})
+		alpha := univ.Alphabet(md, p.depth, univ.Opt{Thin: p.thin, EmptyComposite: true})
+		if p.touchOnly {
+			var a2 []*univ.Slot
+			other := 0
+			for _, s := range alpha {
+				if s.Op == univ.OpTouch {
+					if len(a2) < 40 {
+						a2 = append(a2, s)
+					}
+				} else if other < 14 && s.Op != univ.OpUnknown && (other%2 == 0 || s.Ext) {
+					a2 = append(a2, s)
+					other++
+				} else if s.Op != univ.OpUnknown {
+					other++
+				}
+			}
+			alpha = a2
+		}
 		g, d := univ.Gen(p.name), univ.Dyn(p.name)
 		n := univ.TupleCount(len(alpha), p.k)
 		U := make([]elem, n)
